@@ -37,6 +37,13 @@ claim("C05",
       "flag byte order / order-sensitive fast path / remap dictionary, serializer name+version protocol. Value-level round trip is not decided.",
       COMMON_NOTE, "ast sibling agreement + decision-tree simulation + all-paths event counting", "DESIGN.md section 3 C05")
 
+claim("C01",
+      "Static conformance analysis (partial, exact): frozen owners of Composite._children and .parent (who-may-write over the whole tree), all-paths pairing of "
+      "parent/list/locator effects inside add/insert/remove/removeAll/setChildren, every structural override below Composite reaching the base primitive "
+      "exactly once with the same object, pickle/deepcopy protocol, traversal methods with exact generation guards, no __eq__/__hash__ in the hierarchy. "
+      "The global invariant over arbitrary edit histories is not decided; add()/insert() accepting a second parent is a recorded known finding.",
+      COMMON_NOTE, "ast ownership (who-may-write) + all-paths must-pass-through + override discipline", "DESIGN.md section 3 C01")
+
 NA_REASON = {}
 
 
